@@ -221,7 +221,7 @@ func (f *Fixture) Observe(ctx sdk.Context, chain string, claim crosschaintypes.E
 		}
 		r := f.Vote(ctx, chain, i, claim, nonce, height)
 		if !r.OK() {
-			return nonce, fmt.Errorf("vote %d: %v %s", i, r.Err, r.Panic)
+			return nonce, &ObserveError{Vote: i, Err: r.Err, Panic: r.Panic}
 		}
 	}
 	if k.GetLastObservedEventNonce(ctx) != nonce {
@@ -229,6 +229,15 @@ func (f *Fixture) Observe(ctx sdk.Context, chain string, claim crosschaintypes.E
 	}
 	return nonce, nil
 }
+
+// ObserveError: a vote of Observe failed (Panic holds the stack if the handler panicked).
+type ObserveError struct {
+	Vote  int
+	Err   error
+	Panic string
+}
+
+func (e *ObserveError) Error() string { return fmt.Sprintf("vote %d: %v", e.Vote, e.Err) }
 
 // EthTxResult is the outcome of a message-level EVM transaction.
 type EthTxResult struct {
